@@ -370,7 +370,13 @@ class Rule(NamedBox):
 
     @staticmethod
     def param_repr(p):
-        if isinstance(p, int | float) or (isinstance(p, str) and p.isalnum()):
+        # NOTE: a string is written bare only when it reads back as that string:
+        #   '123', 'True', 'null'... unquoted are numbers, booleans and None
+        if isinstance(p, int | float) or (
+            isinstance(p, str)
+            and p.isidentifier()
+            and p not in {'True', 'False', 'None', 'true', 'false', 'null'}
+        ):
             return str(p)
         else:
             return repr(p)
